@@ -205,6 +205,44 @@ def dirtyClosure : List String → List String → Option (List String)
 /-- permissions.go `anyExecutableBitSet`. -/
 def anyExecBit (perm : Nat) : Bool := perm &&& 0o111 != 0
 
+/-- scan.go:171-177: may the cached digest / the cached entry be reused? -/
+def cacheContentMatch (cached : Option CacheEntry) (mode : Nat) (mtime : MTime) (size ino : Nat) : Bool :=
+  match cached with
+  | none => false
+  | some c =>
+    (mode &&& modeTypeMask) == (c.mode &&& modeTypeMask) && mtime == c.mtime &&
+      size == c.size && ino == c.fileID
+
+def cacheEntryReusable (cached : Option CacheEntry) (mode : Nat) (mtime : MTime) (size ino : Nat) : Bool :=
+  match cached with
+  | none => false
+  | some c => cacheContentMatch cached mode mtime size ino && mode == c.mode
+
+/-- scan.go:181-227: the digest, from the cache or by opening and hashing the
+file; `.error r` = the handler returns `r` at once. -/
+def fileDigest (cfg : Cfg) (path : String) (isRoot : Bool) (content : Bytes) (size : Nat)
+    (cached : Option CacheEntry) (contentMatch : Bool) : Except Res Bytes :=
+  match cached, contentMatch with
+  | some c, true => .ok c.digest
+  | _, _ =>
+    let opened : Fault := if isRoot then .none else cfg.openFileFault path
+    match opened with
+    | .notExist => .error .notExist
+    | .err => .error (.entry (problematic "unable to open file"))
+    | .none =>
+      if content.length ≠ size then .error (.entry (problematic "hashed size mismatch"))
+      else .ok (cfg.hash content)
+
+/-- scan.go:229-250: the entry for the new cache (`none` = the modification
+time cannot be converted). -/
+def fileCacheEntry (cached : Option CacheEntry) (reusable : Bool) (mode : Nat) (mtime : MTime) (size ino : Nat)
+    (digest : Bytes) : Option CacheEntry :=
+  match cached, reusable with
+  | some c, true => some c
+  | _, _ =>
+    if !mtime.valid then none
+    else some { mode := mode, mtime := mtime, size := size, fileID := ino, digest := digest }
+
 /-- scan.go:148-262 `scanner.file`. `isRoot` ⇔ the file was handed in already
 open (`file != nil`). -/
 def scanFile (cfg : Cfg) (acc : Accel) (path : String) (isRoot : Bool)
@@ -212,42 +250,12 @@ def scanFile (cfg : Cfg) (acc : Accel) (path : String) (isRoot : Bool)
   let mode := modeTypeFile + perm
   let executable := cfg.permsMode == .portable && cfg.preservesExec && anyExecBit perm
   let cached := alookup path acc.cache
-  let contentMatch :=
-    match cached with
-    | none => false
-    | some c =>
-      (mode &&& modeTypeMask) == (c.mode &&& modeTypeMask) && mtime == c.mtime &&
-        size == c.size && ino == c.fileID
-  let reusable :=
-    match cached with
-    | none => false
-    | some c => contentMatch && mode == c.mode
-  -- digest: from the cache, or by opening and hashing
-  let digest? : Except Res Bytes :=
-    match cached, contentMatch with
-    | some c, true => .ok c.digest
-    | _, _ =>
-      let opened : Except Res Unit :=
-        if isRoot then .ok () else
-        match cfg.openFileFault path with
-        | .notExist => .error .notExist
-        | .err => .error (.entry (problematic "unable to open file"))
-        | .none => .ok ()
-      match opened with
-      | .error r => .error r
-      | .ok () =>
-        if content.length ≠ size then .error (.entry (problematic "hashed size mismatch"))
-        else .ok (cfg.hash content)
-  match digest? with
+  let contentMatch := cacheContentMatch cached mode mtime size ino
+  let reusable := cacheEntryReusable cached mode mtime size ino
+  match fileDigest cfg path isRoot content size cached contentMatch with
   | .error r => (r, st)
   | .ok digest =>
-    let newEntry? : Option CacheEntry :=
-      match cached, reusable with
-      | some c, true => some c
-      | _, _ =>
-        if !mtime.valid then none
-        else some { mode := mode, mtime := mtime, size := size, fileID := ino, digest := digest }
-    match newEntry? with
+    match fileCacheEntry cached reusable mode mtime size ino digest with
     | none => (.entry (problematic "unable to convert file modification time"), st)
     | some ce =>
       (.entry (.mk { kind := .file, executable := executable, digest := digest } []),
@@ -270,23 +278,35 @@ def lookupLink (siblings : List (Bytes × Node)) (decoded name : String) (target
   | some _ => (.err, "")
   | none => (.notExist, "")
 
+/-- The `readlinkat` outcome handed to the handler of a child (only links read). -/
+def linkFor (siblings : List (Bytes × Node)) (decoded name : String) : Node → Fault × String
+  | .symlink t => lookupLink siblings decoded name t
+  | _ => (.none, "")
+
+/-- scan.go:283-298: portability enforcement, or the non-emptiness check of the
+raw mode. -/
+def linkTarget (cfg : Cfg) (path target : String) (enforcePortable : Bool) : Except Entry String :=
+  if enforcePortable then
+    match cfg.normalize path target with
+    | none => .error (problematic "invalid symbolic link")
+    | some t => .ok t
+  else if target = "" then .error (problematic "symbolic link target is empty")
+  else .ok target
+
+/-- The outcome of `parent.ReadSymbolicLink(name)`: an injected fault, else the lookup's. -/
+def linkFault (cfg : Cfg) (path : String) (link : Fault × String) : Fault :=
+  match cfg.readlinkFault path with
+  | .none => link.1
+  | f => f
+
 /-- scan.go:265-308 `scanner.symbolicLink`; `link` is the outcome of the
 `readlinkat` lookup (`lookupLink`). -/
 def scanSymlink (cfg : Cfg) (path : String) (link : Fault × String) (enforcePortable : Bool) (st : St) : Res × St :=
-  let target := link.2
-  let fault := match cfg.readlinkFault path with | .none => link.1 | f => f
-  match fault with
+  match linkFault cfg path link with
   | .notExist => (.notExist, st)
   | .err => (.entry (problematic "unable to read symbolic link target"), st)
   | .none =>
-    let t? : Except Entry String :=
-      if enforcePortable then
-        match cfg.normalize path target with
-        | none => .error (problematic "invalid symbolic link")
-        | some t => .ok t
-      else if target = "" then .error (problematic "symbolic link target is empty")
-      else .ok target
-    match t? with
+    match linkTarget cfg path link.2 enforcePortable with
     | .error e => (.entry e, st)
     | .ok t => (.entry (.mk { kind := .symlink, target := t } []), { st with links := st.links + 1 })
 
@@ -323,9 +343,16 @@ end
 
 /-! ## scanner.directory -/
 
+/-- The bytes of `filesystem.TemporaryNamePrefix` (an ASCII string, see
+`temporaryPrefix_ascii`: one byte per character). -/
+def temporaryPrefixBytes : Bytes :=
+  Mutagen.Facts.scanTemporaryNamePrefix.toList.map fun c => UInt8.ofNat c.toNat
+
+theorem temporaryPrefix_ascii : Mutagen.Facts.scanTemporaryNamePrefix.toList.all (·.toNat < 128) = true := by decide
+
 /-- `strings.HasPrefix(contentName, filesystem.TemporaryNamePrefix)` on the raw name. -/
 def hasTemporaryPrefix (name : Bytes) : Bool :=
-  Mutagen.Facts.scanTemporaryNamePrefix.toUTF8.toList.isPrefixOf name
+  temporaryPrefixBytes.isPrefixOf name
 
 /-- scan.go:495-501: the directory baseline of a child. -/
 def childBaseline (baseline : Option Entry) (isDir : Bool) (name : String) : Option Entry :=
@@ -349,6 +376,47 @@ def ignoreDecision (b : IgnoreVal) (mask : Bool) : IgnoreDecision :=
   | .nominal => if mask && !b.cont then .untracked else .proceed mask
   | .ignored => if !b.cont then .untracked else .proceed true
   | .unignored => .proceed false
+
+/-- What the loop body of `scanner.directory` decides about one directory entry
+before any handler runs (scan.go:392-481): skip it (temporary name), record an
+entry at once (non-UTF-8 name, unsupported type, ignored), or go on to the
+baseline / handler stage. `ign` is the binding added to the new ignore cache. -/
+inductive Pre
+  | skip
+  | put (name : Name) (e : Entry) (ign : Option ((String × Bool) × IgnoreVal))
+  | go (name decoded contentPath : String) (isDir : Bool) (ign : (String × Bool) × IgnoreVal) (childMask : Bool)
+  deriving Repr
+
+def preDispatch (cfg : Cfg) (acc : Accel) (pfx : String) (mask : Bool) (rawName : Bytes) (node : Node) : Pre :=
+  if hasTemporaryPrefix rawName then .skip else
+  match cfg.utf8 rawName with
+  | none =>
+    .put (cfg.escape rawName ++ " (non-UTF-8)") (if mask then untracked else problematic "non-UTF-8 filename") none
+  | some decoded =>
+    let name := if cfg.decomposes then cfg.nfc decoded else decoded
+    let contentPath := pfx ++ name
+    -- kind switch (scan.go:442-453)
+    match node with
+    | .other _ => .put name untracked none
+    | _ =>
+      let isDir := match node with | .dir _ _ => true | _ => false
+      let key := (contentPath, isDir)
+      let behavior :=
+        match alookup key acc.ignoreCache with
+        | some v => v
+        | none => cfg.ignorer contentPath isDir
+      match ignoreDecision behavior mask with
+      | .untracked => .put name untracked (some (key, behavior))
+      | .proceed childMask => .go name decoded contentPath isDir (key, behavior) childMask
+
+/-- scan.go:527-533: the baseline entry to reuse for a directory, if any. -/
+def reuseDecision (cfg : Cfg) (acc : Accel) (contentPath : String) (dirBaseline : Option Entry) : Option Entry :=
+  match dirBaseline with
+  | none => none
+  | some b =>
+    let contentDirty := acc.dirty.contains contentPath
+    let contentDirty := contentDirty || (cfg.linux && b.children.isEmpty)
+    if contentDirty then none else some b
 
 mutual
 /-- Dispatch on the kind of a child that passed the ignore stage
@@ -380,58 +448,31 @@ def scanNode (cfg : Cfg) (acc : Accel) (path : String) (isRoot : Bool) (baseline
         (.entry (.mk { kind := kind } contents), { st with dirs := st.dirs + 1 })
 
 /-- The loop of scan.go:384-619 over the directory contents; `none` = the scan
-aborts with an error. -/
+aborts with an error. `all` is the complete listing (for `lookupLink`). -/
 def scanChildren (cfg : Cfg) (acc : Accel) (pfx : String) (all : Children) :
     Children → Option Entry → Bool → Contents → St → Option (Contents × St)
   | [], _, _, contents, st => some (contents, st)
   | (rawName, node) :: rest, baseline, mask, contents, st =>
-    if hasTemporaryPrefix rawName then scanChildren cfg acc pfx all rest baseline mask contents st else
-    match cfg.utf8 rawName with
-    | none =>
-      let escaped := cfg.escape rawName ++ " (non-UTF-8)"
-      let e := if mask then untracked else problematic "non-UTF-8 filename"
-      scanChildren cfg acc pfx all rest baseline mask (upsert escaped e contents) st
-    | some decoded =>
-      let name := if cfg.decomposes then cfg.nfc decoded else decoded
-      let contentPath := pfx ++ name
-      -- kind switch (scan.go:442-453)
-      let supported := match node with | .other _ => false | _ => true
-      if !supported then
-        scanChildren cfg acc pfx all rest baseline mask (upsert name untracked contents) st
-      else
-      let isDir := match node with | .dir _ _ => true | _ => false
-      let key := (contentPath, isDir)
-      let behavior :=
-        match alookup key acc.ignoreCache with
-        | some v => v
-        | none => cfg.ignorer contentPath isDir
-      let st := { st with newIgnore := (key, behavior) :: st.newIgnore }
-      match ignoreDecision behavior mask with
-      | .untracked => scanChildren cfg acc pfx all rest baseline mask (upsert name untracked contents) st
-      | .proceed childMask =>
-        let dirBaseline := childBaseline baseline isDir name
-        -- baseline reuse (scan.go:527-576)
-        let reuse : Option Entry :=
-          match dirBaseline with
-          | none => none
-          | some b =>
-            let contentDirty := acc.dirty.contains contentPath
-            let contentDirty := contentDirty || (cfg.linux && b.children.isEmpty)
-            if contentDirty then none else some b
-        match reuse with
-        | some b =>
-          let (st, missing) := reuseWalk acc contentPath b (st, false)
-          if missing then none
-          else scanChildren cfg acc pfx all rest baseline mask (upsert name b contents) st
-        | none =>
-          let link : Fault × String :=
-            match node with
-            | .symlink t => lookupLink all decoded name t
-            | _ => (.none, "")
-          match scanNode cfg acc contentPath false dirBaseline childMask link node st with
-          | (.abort, _) => none
-          | (.notExist, st) => scanChildren cfg acc pfx all rest baseline mask contents st
-          | (.entry e, st) => scanChildren cfg acc pfx all rest baseline mask (upsert name e contents) st
+    match preDispatch cfg acc pfx mask rawName node with
+    | .skip => scanChildren cfg acc pfx all rest baseline mask contents st
+    | .put name e ign =>
+      scanChildren cfg acc pfx all rest baseline mask (upsert name e contents)
+        { st with newIgnore := ign.toList ++ st.newIgnore }
+    | .go name decoded contentPath isDir ign childMask =>
+      let st := { st with newIgnore := ign :: st.newIgnore }
+      let dirBaseline := childBaseline baseline isDir name
+      -- baseline reuse (scan.go:527-576)
+      match reuseDecision cfg acc contentPath dirBaseline with
+      | some b =>
+        let (st, missing) := reuseWalk acc contentPath b (st, false)
+        if missing then none
+        else scanChildren cfg acc pfx all rest baseline mask (upsert name b contents) st
+      | none =>
+        let link := linkFor all decoded name node
+        match scanNode cfg acc contentPath false dirBaseline childMask link node st with
+        | (.abort, _) => none
+        | (.notExist, st) => scanChildren cfg acc pfx all rest baseline mask contents st
+        | (.entry e, st) => scanChildren cfg acc pfx all rest baseline mask (upsert name e contents) st
 end
 
 /-! ## Scan -/
@@ -472,6 +513,14 @@ structure Prev where
   ignoreCache : IgnoreCache := []
   deriving Repr, Inhabited
 
+/-- scan.go:888-901: the values `Scan` returns for a handler result. -/
+def outOf (cfg : Cfg) : Res × St → Except ScanErr Out
+  | (.entry e, st) =>
+    .ok { snapshot := { content := some e, preservesExec := cfg.preservesExec, decomposes := cfg.decomposes,
+                        dirs := st.dirs, files := st.files, links := st.links, size := st.size },
+          cache := st.newCache, ignoreCache := st.newIgnore }
+  | _ => .error .failed
+
 /-- scan.go:651-902 `Scan` on the root inode (`none` = the root does not exist). -/
 def scan (cfg : Cfg) (prev : Prev) (root : Option Node) : Except ScanErr Out :=
   match root with
@@ -506,13 +555,7 @@ def scan (cfg : Cfg) (prev : Prev) (root : Option Node) : Except ScanErr Out :=
       | some dirty =>
         let acc : Accel := { dirty := dirty, cache := prev.cache, ignoreCache := prev.ignoreCache }
         let dirBaseline : Option Entry := if rootIsDir then baseline.bind (·.content) else none
-        let (res, st) : Res × St := scanNode cfg acc "" true dirBaseline false (.none, "") node {}
-        match res with
-        | .entry e =>
-          .ok { snapshot := { content := some e, preservesExec := cfg.preservesExec, decomposes := cfg.decomposes,
-                              dirs := st.dirs, files := st.files, links := st.links, size := st.size },
-                cache := st.newCache, ignoreCache := st.newIgnore }
-        | _ => .error .failed
+        outOf cfg (scanNode cfg acc "" true dirBaseline false (.none, "") node {})
 
 /-- A scan without acceleration inputs. -/
 def scanCold (cfg : Cfg) (root : Option Node) : Except ScanErr Out := scan cfg {} root
